@@ -82,6 +82,7 @@ CHECKS["C15"] = {
 }
 
 C04_FAULT_RUN = bus("C04", ["--validate-every", 0], ["--validate-every", 0], variant="san")
+C04_FAULT_RUN.update({"harness": "busmc_poll", "libset": "full", "flags": ["-DBUSMC_WITH_POLL"]})
 C04_SCHED_RUN = {
     "harness": "schedmc", "variant": "schedsan",
     "sources": ["engines/schedmc/schedmc.cpp", "engines/schedmc/vp_sched.cpp", "engines/busmc/busworld.cpp"],
